@@ -22,7 +22,7 @@ META = dict(
          "instruction is first visited only after its predecessor's visit ended and its parent started, lines of Alarm and "
          "macro invocations start once per invocation (also: a body wrapped in a macro called twice / in an Alarm that fires "
          "repeatedly leaves the marks of the body run alone, repeated), and trailing blank/comment lines are never completed or passed.",
-    note="Programs <= 3 statements (4 thorough over a sub-grammar), nesting <= 2; the order oracle is skipped where End "
+    note="A second run of the same method after Stop/Start must repeat the first (programs <= 2 statements). Programs <= 3 statements (4 thorough over a sub-grammar), nesting <= 2; the order oracle is skipped where End "
          "block(s) sits in a Watch/Alarm body (the interrupt ends the main flow's block at a time the statement does not fix); "
          "horizon 40 ticks.",
 )
@@ -116,6 +116,55 @@ def check_item(item):
     return out, nontrivial
 
 
+def check_second_run(item):
+    """Differential oracle over runs: Start, run to the horizon, Stop, Start again with the same inputs - the second run of the
+    same method must start the same lines in the same order as the first (marks, executed lines) and must not pass trailing
+    blank/comment lines either."""
+    _, forest, traj = item
+    lines = pgen.to_lines(forest)
+    run = Run(lines, observe=("mstate",))
+    t_true = TRAJ[traj]
+    probs = []
+    results = []
+    for rno in (1, 2):
+        n0 = len(run.marks())
+        for t in range(HORIZON):
+            if t_true is not None and t == t_true:
+                run.set_input("X", 2.0)
+            ob = run.tick()
+            if "tick_exception" in ob:
+                probs.append(("C02:tick-raised", ob["tick_exception"]))
+            if rno == 2:
+                prog, nodes = fc.tree(run)
+                for sig, what in fc.trailing_ws_problems(nodes, t):
+                    probs.append(("C02:" + sig, "second run of the same method: " + what))
+        if run.error_events:
+            run.cleanup()
+            return [], False
+        ms = run.method_state()
+        results.append((run.marks()[n0:], sorted(ms["executed"]), sorted(ms["started"])))
+        if rno == 1:
+            run.user("Stop")
+            for _ in range(3):
+                run.tick()
+            if run.state() != "Stopped":
+                run.cleanup()
+                return [], False
+            run.set_input("X", 0.0)
+            run.user("Start")
+    run.cleanup()
+    if results[0] != results[1]:
+        which = "marks" if results[0][0] != results[1][0] else "executed-lines" if results[0][1] != results[1][1] else "started-lines"
+        probs.append((f"C02:second-run-differs:{which}",
+                      f"program {[c for _, c in lines]}: first run (marks, executed, started) {results[0]}, second run after Stop/Start {results[1]}"))
+    seen, out = set(), []
+    for sig, what in probs:
+        if sig not in seen:
+            seen.add(sig)
+            out.append((sig, what))
+    return out, True
+
+
 REP_KINDS = ["M", "K", "EB", "W"]
 REP_HORIZON = 70
 
@@ -173,10 +222,17 @@ def corpus(ctx):
     for f in pgen.programs(REP_KINDS, 4 if ctx.quick else 5, depth=2):
         if pgen.no_empty_openers(f) and "M" in pgen.kinds_flat(f):
             items.append(("rep", f, None))
+    for f in pgen.programs(KINDS, 2, depth=2):
+        if pgen.no_empty_openers(f) and "Al" not in pgen.kinds_flat(f):     # an Alarm cycles: its snapshot at the horizon is a matter of phase
+            ks = pgen.kinds_flat(f)
+            for tr in (["never", "from4"] if any(k in ("Wa", "Al") for k in ks) else ["never"]):
+                items.append(("rerun", f, tr))
     return items
 
 
 def _check(item):
+    if item[0] == "rerun":
+        return check_second_run(item)
     return check_repetition(item) if item[0] == "rep" else check_item(item)
 
 
@@ -190,27 +246,40 @@ def run(ctx):
         for sig, what in viol:
             if it[0] == "rep":
                 ctx.violation(sig, what, {"rep": pgen.render(it[1])})
+            elif it[0] == "rerun":
+                ctx.violation(sig, what, {"rerun": pgen.render(it[1]), "traj": it[2]})
             else:
                 ctx.violation(sig, what, {"lines": pgen.render(it[0]), "traj": it[1]})
     reps = sum(1 for it, (_, nt) in zip(items, results) if it[0] == "rep" and nt)
     if reps < 50:
         raise HarnessError("vacuous: repetition family")
-    plain = [it for it in items if it[0] != "rep"]
+    reruns = sum(1 for it, (_, nt) in zip(items, results) if it[0] == "rerun" and nt)
+    if reruns < 50:
+        raise HarnessError("vacuous: second-run family")
+    plain = [it for it in items if it[0] not in ("rep", "rerun")]
     if nontrivial < 100:
         raise HarnessError("vacuous corpus")
     ctx.coverage.update(
         states=len(items) * HORIZON, transitions=len(items) * HORIZON, traces_validated_against_impl=len(items),
         evaluations=len(items), distinct_nontrivial=nontrivial, programs=len({pgen.text(i[0]) for i in plain}),
-        repeated_bodies=reps,
+        repeated_bodies=reps, second_runs=reruns,
         rule="every program up to the size bound x condition trajectory {never, true from tick 4, true from tick 12}; "
              "non-trivial = the reference main flow has at least two instructions; plus every terminating body over "
              f"{REP_KINDS} up to the size bound wrapped in a macro called twice and in an Alarm whose condition stays true "
-             "(marks compared with the body run alone)",
+             "(marks compared with the body run alone); plus every program up to 2 statements run twice (Stop, Start) with the "
+             "second run compared with the first",
         samples=[pgen.render(plain[10][0]), pgen.render(plain[len(plain) // 2][0]), pgen.render(plain[-1][0])],
         exhaustive=True, horizon=HORIZON)
 
 
 def replay(data):
+    if "rerun" in data:
+        f = _forest(data["rerun"])
+        print("program:", data["rerun"], "trajectory:", data["traj"])
+        viol, _ = check_second_run(("rerun", f, data["traj"]))
+        for _, w in viol:
+            print(w)
+        return viol
     if "rep" in data:
         f = _forest(data["rep"])
         print("body:", data["rep"])
